@@ -15,6 +15,7 @@ mod c07;
 mod c08;
 mod c11;
 mod c12;
+mod c13;
 mod c14;
 mod c15;
 mod c16;
@@ -45,6 +46,7 @@ fn main() {
         "c16-queue" => c16::queue(rest),
         "c11-drive" => c11::drive(rest),
         "c12-drive" => c12::drive(rest),
+        "c13-drive" => c13::drive(rest),
         "c14-drive" => c14::drive(rest),
         "c14-replay" => c14::replay(),
         "c15-replay" => c15::replay(rest),
